@@ -43,6 +43,10 @@ type File struct {
 	sinkErr string
 	// directory listing position
 	dirpos int
+	// of: the open file this value stands for when it was made by NewFile
+	// from a descriptor number: a second Go value for the same descriptor
+	// (same offset, same everything), as os.NewFile gives.
+	of *File
 }
 
 // Name returns the name as presented to Open.
@@ -52,7 +56,29 @@ func (f *File) Name() string { return f.name }
 func (f *File) Fd() uintptr { return uintptr(f.fd) }
 
 // SinkBytes returns what a sink has accepted so far.
-func (f *File) SinkBytes() []byte { return f.sink }
+func (f *File) SinkBytes() []byte {
+	if f.of != nil {
+		return f.of.sink
+	}
+	return f.sink
+}
+
+// NewFile returns a new File for an open descriptor of the current process,
+// nil when there is none with that number.
+func NewFile(fd uintptr, name string) *File {
+	p := W.P
+	if p == nil {
+		return nil
+	}
+	t, ok := p.fds[int(fd)]
+	if !ok || t.closed {
+		return nil
+	}
+	for t.of != nil {
+		t = t.of
+	}
+	return &File{w: t.w, name: name, kind: t.kind, fd: t.fd, of: t}
+}
 
 func perr(op, path string, err error) error { return &fs.PathError{Op: op, Path: path, Err: err} }
 
@@ -80,6 +106,9 @@ func (f *File) opPath() string {
 // Read implements io.Reader with os.File semantics for regular files and
 // scheduled short reads for the stdin pipe.
 func (f *File) Read(p []byte) (int, error) {
+	if f.of != nil {
+		return f.of.Read(p)
+	}
 	w := f.w
 	ft := w.begin("read", f.opPath(), f.off, len(p))
 	if ft != nil {
@@ -165,6 +194,9 @@ func (f *File) Read(p []byte) (int, error) {
 
 // Write implements io.Writer.
 func (f *File) Write(p []byte) (int, error) {
+	if f.of != nil {
+		return f.of.Write(p)
+	}
 	w := f.w
 	ft := w.begin("write", f.opPath(), f.off, len(p))
 	if ft != nil {
@@ -309,6 +341,9 @@ func (f *File) WriteString(s string) (int, error) { return f.Write([]byte(s)) }
 
 // Seek implements io.Seeker.
 func (f *File) Seek(offset int64, whence int) (int64, error) {
+	if f.of != nil {
+		return f.of.Seek(offset, whence)
+	}
 	w := f.w
 	ft := w.begin("seek", f.opPath(), offset, whence)
 	if ft != nil {
@@ -350,6 +385,9 @@ func (f *File) Seek(offset int64, whence int) (int64, error) {
 
 // Close releases the handle.
 func (f *File) Close() error {
+	if f.of != nil {
+		return f.of.Close()
+	}
 	w := f.w
 	ft := w.begin("close", f.opPath(), 0, 0)
 	if ft != nil && ft.Kind == "kill" {
@@ -375,6 +413,9 @@ func (f *File) Close() error {
 
 // Sync is recorded; a synced file's writes so far are immune to power loss.
 func (f *File) Sync() error {
+	if f.of != nil {
+		return f.of.Sync()
+	}
 	w := f.w
 	ft := w.begin("sync", f.opPath(), 0, 0)
 	if ft != nil {
@@ -403,6 +444,9 @@ func (f *File) Sync() error {
 
 // Truncate changes the size of the file.
 func (f *File) Truncate(size int64) error {
+	if f.of != nil {
+		return f.of.Truncate(size)
+	}
 	w := f.w
 	ft := w.begin("truncate", f.opPath(), size, 0)
 	if ft != nil {
@@ -438,6 +482,9 @@ func (f *File) Truncate(size int64) error {
 
 // ReadAt reads at an absolute offset without moving the file offset.
 func (f *File) ReadAt(p []byte, off int64) (int, error) {
+	if f.of != nil {
+		return f.of.ReadAt(p, off)
+	}
 	save := f.off
 	f.off = off
 	n, err := f.Read(p)
@@ -450,6 +497,9 @@ func (f *File) ReadAt(p []byte, off int64) (int, error) {
 
 // WriteAt writes at an absolute offset without moving the file offset.
 func (f *File) WriteAt(p []byte, off int64) (int, error) {
+	if f.of != nil {
+		return f.of.WriteAt(p, off)
+	}
 	save := f.off
 	f.off = off
 	n, err := f.Write(p)
@@ -462,6 +512,9 @@ func (f *File) Chmod(mode FileMode) error { return nil }
 
 // Stat describes the file.
 func (f *File) Stat() (FileInfo, error) {
+	if f.of != nil {
+		return f.of.Stat()
+	}
 	if f.closed {
 		return nil, perr("stat", f.name, realos.ErrClosed)
 	}
@@ -478,6 +531,9 @@ func (f *File) Stat() (FileInfo, error) {
 
 // Readdir lists a directory handle.
 func (f *File) Readdir(n int) ([]FileInfo, error) {
+	if f.of != nil {
+		return f.of.Readdir(n)
+	}
 	if f.kind != kDir {
 		return nil, perr("readdir", f.name, syscall.ENOTDIR)
 	}
@@ -495,6 +551,9 @@ func (f *File) Readdir(n int) ([]FileInfo, error) {
 
 // Readdirnames lists the names in a directory handle.
 func (f *File) Readdirnames(n int) ([]string, error) {
+	if f.of != nil {
+		return f.of.Readdirnames(n)
+	}
 	fi, err := f.Readdir(n)
 	names := make([]string, len(fi))
 	for i := range fi {
